@@ -40,7 +40,7 @@ def run(ctx):
                                 name="Gen_RC_exhaustive", timeout_s=2400)
         # long random behaviours of the same model
         cases += ctx.r2_generate(MODS + ["Gen_RangeCache"], "Gen_RangeCache", GEN.format(size=6, ops=10),
-                                 name="Gen_RC_sim", simulate=300 if q else 4000, depth=40)
+                                 name="Gen_RC_sim", simulate=300 if q else 15000, depth=40)
     casep = ctx.write_ndjson("cases.ndjson", cases)
     ov = ctx.overlay(pkg_files={"range-cache": ["c17_test.go"], "split-car-fetcher": ["c17_test.go"]})
     b = ctx.go_build("./range-cache", ov, name="rc")
